@@ -56,6 +56,8 @@ def process_list(lines, params):
         return this_out
       else:
         return line
+    if not line.endswith("\n"):
+      line += "\n"  # Last line of a file without final newline: keep the duplicated lines apart
     lines = duplicate(line)
     
     # Don't add blank lines
